@@ -138,7 +138,7 @@ func runC09(e *Env) {
 		"panic values are comparable (==)",
 		"the statement's 'no later handler runs' is checked for the OnPanic hook only; PanicsHandler lets the outer loop continue by design and is only checked for containment, status and router health",
 	}
-	e.RunCases("histories", e.N(12000, 300000), 0, c09Case)
+	e.RunCases("histories", e.N(12000, 2000000), 0, c09Case)
 	e.Require("panic.in_global_mw", 200)
 	e.Require("panic.in_route_mw", 200)
 	e.Require("panic.in_main", 200)
